@@ -9,6 +9,7 @@ import (
 	"bytes"
 	"fmt"
 	"github.com/saucelabs/forwarder"
+	"math/big"
 	"strings"
 	"testing"
 	"time"
@@ -362,10 +363,57 @@ func scenario(x *explore.X) {
 	}
 }
 
+// limitSpellings: the value of --read-limit / --write-limit is written as a decimal number with an optional binary
+// suffix (none = KiB, b/B = octets, k/Ki/KiB ... ). Every spelling of the alphabet is parsed by the option's own
+// parser (SizeSuffix.Set, what flags, environment and config file go through) and compared with exact rational
+// arithmetic: the limiter is built from this number, a mis-read fraction is a different limit.
+func limitSpellings(x *explore.X) {
+	ip := []string{"0", "1", "12", "007", "3000", ""}[x.ChooseFree("integer-part", 6)]
+	fp := []string{"", ".", ".5", ".05", ".005", ".25", ".125", ".50", ".0", ".000977", ".999"}[x.ChooseFree("fraction", 11)]
+	suf := []string{"", "b", "B", "k", "K", "Ki", "KiB", "kib", "M", "Mi", "MiB", "m", "G", "Gi"}[x.ChooseFree("suffix", 14)]
+	spelling := ip + fp + suf
+	if ip == "" && (fp == "" || fp == ".") {
+		x.Outcome("inadmissible") // no digits at all
+		return
+	}
+	mult := map[byte]int64{'b': 1, 'k': 1 << 10, 'm': 1 << 20, 'g': 1 << 30}
+	m := int64(1 << 10) // a bare number counts KiB
+	if suf != "" {
+		m = mult[strings.ToLower(suf)[0]]
+	}
+	num := ip + fp
+	if strings.HasSuffix(num, ".") {
+		num += "0"
+	}
+	if strings.HasPrefix(num, ".") {
+		num = "0" + num
+	}
+	r, ok := new(big.Rat).SetString(num)
+	if !ok {
+		x.Failf("harness/reference", "cannot read %q", num)
+		return
+	}
+	r.Mul(r, new(big.Rat).SetInt64(m))
+	want := new(big.Int).Quo(r.Num(), r.Denom()).Int64()
+	var got forwarder.SizeSuffix
+	err := got.Set(spelling)
+	x.Check()
+	if err != nil {
+		x.Failf("limit-spelling-rejected", "limit %q: %v (the reference reads %d octets per second)", spelling, err, want)
+		return
+	}
+	// (the parser multiplies in floating point: one octet of rounding is not a different limit)
+	if d := int64(got) - want; d < -1 || d > 1 {
+		x.Failf("limit-misread", "limit %q is taken as %d octets per second, it means %d", spelling, int64(got), want)
+	}
+	x.Outcome(fmt.Sprintf("%s/%v", suf, want > 0))
+}
+
 func TestC20(t *testing.T) {
 	s := explore.NewSuite(t, "C20", "model_checking",
-		"(read-limit, write-limit) in {0, 1 MiB/s, 64 MiB/s, 300 MiB/s, 16 KiB/s, 3000 B/s}^2 (the last two are smaller than one relay buffer / one bufio buffer) x transfer {download, upload, CONNECT tunnel both ways} of 12 MiB per connection (burst + 256 KiB with a limit below 1 MiB/s) x {1,2,3} connections sharing the listener x {no shutdown, graceful shutdown requested while the transfer is under way} x {no client-side time limits, read-timeout 2 s + write-timeout 3 s (bound only)} x (tunnels) {client keeps sending, client half-closes before the download} x sender writes {one piece, pieces of 1000 octets} [full product]; on the virtual clock the receiving side's (time, cumulative bytes) is sampled 64+ times per transfer (states = samples) and the token-bucket bound bytes <= burst + rate x dt + one 64 KiB write per connection is checked between EVERY pair of samples, plus minimum duration, zero virtual time for an unlimited direction, and byte-for-byte identity of the data")
+		"(read-limit, write-limit) in {0, 1 MiB/s, 64 MiB/s, 300 MiB/s, 16 KiB/s, 3000 B/s}^2 (the last two are smaller than one relay buffer / one bufio buffer) x transfer {download, upload, CONNECT tunnel both ways} of 12 MiB per connection (burst + 256 KiB with a limit below 1 MiB/s) x {1,2,3} connections sharing the listener x {no shutdown, graceful shutdown requested while the transfer is under way} x {no client-side time limits, read-timeout 2 s + write-timeout 3 s (bound only)} x (tunnels) {client keeps sending, client half-closes before the download} x sender writes {one piece, pieces of 1000 octets} [full product]; on the virtual clock the receiving side's (time, cumulative bytes) is sampled 64+ times per transfer (states = samples) and the token-bucket bound bytes <= burst + rate x dt + one 64 KiB write per connection is checked between EVERY pair of samples, plus minimum duration, zero virtual time for an unlimited direction, and byte-for-byte identity of the data; plus (limit-spellings) integer part(6) x fraction(11, incl. leading zeros) x suffix(14) of the option value through SizeSuffix.Set compared with exact rational arithmetic")
 	s.Assume = []string{"virtual clock of testing/synctest drives golang.org/x/time/rate", "documented slack: the limiter is charged after each write, so one write (<= 64 KiB) per connection may exceed the bucket", "simnet receive buffers are unbounded, so the only throttle is the limiter under test"}
+	s.Add(explore.Scenario{Name: "limit-spellings", Run: limitSpellings})
 	s.Add(explore.Scenario{Name: "limits", Remote: true, Run: func(x *explore.X) { world.Run(t, x, func() { scenario(x) }) }})
 	s.Main()
 }
